@@ -281,8 +281,9 @@ Print Assumptions sql_engine_reads_intended.
    unary minus; exactly one pair is left: neg over an s-string that starts with `-`. *)
 Definition k_neg : str := (k_tmpl ++ [110;101;103])%N.
 Theorem adjacency_only_neg_sstring :
+  minus_guard = false /\     (* translate_operator does not (yet) look at the text around a hole: fixes/F3b *)
   forallb (fun d => match adjacency_bad d with [(p, c)] => leqb p k_neg && leqb c k_sstr_minus | _ => false end) [d_sqlite; d_generic] = true.
-Proof. vm_compute. reflexivity. Qed.
+Proof. vm_compute. split; reflexivity. Qed.
 Print Assumptions adjacency_only_neg_sstring.
 
 (* F3 is repaired for operators and literals: -(-a) renders -(-a), the negation of the literal -5 renders -(-5) *)
@@ -372,6 +373,52 @@ Example ex_fold_outer_first :
 Proof. econstructor; [apply FS_root; apply (FR_op n_coalesce); vm_compute; reflexivity|constructor]. Qed.
 Example ex_normalize_swaps :
   normalize (ROp n_eq [RLit LNull; RCol 0]) = ROp n_eq [RCol 0; RLit LNull].
+Proof. vm_compute. reflexivity. Qed.
+
+(* ---- date formats (date.to_text): chrono items -> the dialect's format language (Model/DateFormat.v) ---- *)
+From PV Require Import Model.DateFormat Gen.GenDateFormat.
+
+(* table obligations on what dialect.rs says now: the six dialects that translate date formats translate exactly the
+   same 18 items (a format accepted by one is accepted by all), the hand-written specifier table of the chrono model
+   covers exactly those items, and the algorithms around the tables have the modelled text *)
+Theorem date_format_tables_ok : date_tables_same_domain && spec_table_covers && date_format_shapes_ok = true.
+Proof. vm_compute. reflexivity. Qed.
+Print Assumptions date_format_tables_ok.
+
+(* nothing is dropped silently: the translation is defined exactly when every item of the format has a translation, and
+   is then the concatenation of the items' translations in order *)
+Theorem date_format_itemwise : forall tbl variant items,
+  (exists out, map_opt_s (item_text tbl variant) items = Some out /\ length out = length items) <->
+  (forall it, In it items -> item_text tbl variant it <> None).
+Proof.
+  intros tbl variant items. induction items as [|x t IH]; cbn [map_opt_s].
+  - split; [intros _ it []|intros _; exists []; split; reflexivity].
+  - split.
+    + intros [out [E L]]. destruct (item_text tbl variant x) eqn:Ex; [|discriminate].
+      destruct (map_opt_s (item_text tbl variant) t) as [ys|] eqn:Et; [|discriminate]. inversion E; subst.
+      intros it [<-|Hin]; [rewrite Ex; discriminate|]. apply (proj1 IH); [|exact Hin]. exists ys. split; [reflexivity|]. cbn in L. congruence.
+    + intros H. destruct (item_text tbl variant x) eqn:Ex; [|exfalso; apply (H x); [left; reflexivity|exact Ex]].
+      destruct (proj2 IH) as [ys [Ey Ly]]; [intros it Hin; apply H; right; exact Hin|]. rewrite Ey.
+      exists (s :: ys). split; [reflexivity|]. cbn. congruence.
+Qed.
+Print Assumptions date_format_itemwise.
+
+(* C02-N10 (a regression of /repo e3af91e, which made translate_literal double every quote): postgres, redshift, mysql,
+   duckdb and clickhouse still escape a quote of a literal chunk for SQL themselves, so the format VALUE the engine
+   receives has two quotes (duckdb: strftime(a, '%Y''''%m') renders 2020''03).
+   FULL STATEMENT (false): no dialect of date_tables escapes the quote twice. *)
+Theorem date_format_quote_escaped_twice_refuted :
+  existsb (fun r => quote_escaped_twice (snd r)) date_tables = true.
+Proof. vm_compute. reflexivity. Qed.
+Print Assumptions date_format_quote_escaped_twice_refuted.
+Theorem date_format_quote_partial :
+  forallb (fun r => negb (quote_escaped_twice (snd r)) || mem (fst (fst r)) [[112;111;115;116;103;114;101;115]; [114;101;100;115;104;105;102;116];
+     [109;121;115;113;108]; [100;117;99;107;100;98]; [99;108;105;99;107;104;111;117;115;101]]%N) date_tables = true.
+Proof. vm_compute. reflexivity. Qed.
+Print Assumptions date_format_quote_partial.
+Example ex_date_fmt_postgres :
+  date_fmt [112;111;115;116;103;114;101;115]%N [37;89;45;37;109;32;97;116;32;37;45;72]%N    (* "%Y-%m at %-H" *)
+  = Some [89;89;89;89;45;77;77;32;34;97;116;34;32;70;77;72;72;50;52]%N.                    (* YYYY-MM "at" FMHH24 *)
 Proof. vm_compute. reflexivity. Qed.
 
 (* ================= operator by operator, executable dialects ================= *)
